@@ -17,7 +17,10 @@ import (
 	"sort"
 	"strconv"
 	"strings"
+	"sync"
 	"testing"
+
+	"encoding/binary"
 
 	remoteexecution "github.com/bazelbuild/remote-apis/build/bazel/remote/execution/v2"
 	"github.com/buildbarn/bb-storage/pkg/digest"
@@ -227,6 +230,48 @@ func describe(d digest.Digest) string {
 	return fmt.Sprintf("{%s %s %d %q}", d.GetDigestFunction().GetEnumValue(), d.GetHashString(), d.GetSizeBytes(), d.GetInstanceName().String())
 }
 
+// ---- the compact binary layout ----
+//
+// The compact binary form is only produced and consumed by this package (no
+// other package of the repository, no protocol, depends on its layout), and
+// the property only demands that it round-trips and that malformed input is
+// rejected. The checks that need to BUILD compact binaries by hand (to state
+// what "malformed" means) therefore apply only while the package renders
+// the layout this file knows: function byte, raw hash, signed varint size.
+// Under any other layout they fall back to format-agnostic statements
+// (round trip, totality), and count "compact_layout_not_reference".
+
+func refCompact(s spec) []byte {
+	hb, _ := hex.DecodeString(s.hash)
+	return binary.AppendVarint(append([]byte{byte(s.fn)}, hb...), s.size)
+}
+
+type panicFataler struct{}
+
+func (panicFataler) Fatalf(format string, args ...any) { panic(fmt.Sprintf(format, args...)) }
+
+var (
+	compactRefOnce sync.Once
+	compactRefIs   bool
+)
+
+func compactIsReference() bool {
+	compactRefOnce.Do(func() {
+		compactRefIs = true
+		for _, f := range allFns {
+			for _, size := range []int64{0, 1, 63, 64, 300, math.MaxInt64} {
+				for _, comps := range [][]string{nil, {"a", "b"}} {
+					s := spec{fn: f, hash: strings.Repeat("5a", fnHexLen[f]/2), size: size, comps: comps}
+					if !bytes.Equal(s.mk(panicFataler{}).GetCompactBinary(), refCompact(s)) {
+						compactRefIs = false
+					}
+				}
+			}
+		}
+	})
+	return compactRefIs
+}
+
 // ---- generators ----
 
 // Components that cannot be mistaken for any other part of a path.
@@ -363,9 +408,8 @@ func exerciseDigest(ft fataler, d digest.Digest, u uuid.UUID) int {
 
 	// Keys.
 	kw, kwo := d.GetKey(digest.KeyWithInstance), d.GetKey(digest.KeyWithoutInstance)
-	if d.String() != kw {
-		ft.Fatalf("String() %q != GetKey(KeyWithInstance) %q", d.String(), kw)
-	}
+	// (String() is a rendering for humans; that it coincides with
+	// GetKey(KeyWithInstance) is a detail the property does not state.)
 	f0, err := digest.EmptyInstanceName.GetDigestFunction(e, 0)
 	if err != nil {
 		ft.Fatalf("GetDigestFunction(%s): %v", e, err)
